@@ -2,7 +2,6 @@ package world
 
 import (
 	"go.sia.tech/core/consensus"
-	"go.sia.tech/core/types"
 	"verif/sim"
 )
 
@@ -17,28 +16,12 @@ func (w *World) actExtra(wl *Wallet, n *Node, v1ok, v2ok bool) []*PoolTxn { retu
 
 func (w *World) workloadRejected(pt *PoolTxn, err error) {}
 
-func (w *World) onWire(kind string, v any, enc []byte) {}
+
 
 func (w *World) crashNode(n *Node)   {}
 func (w *World) restartNode(n *Node) {}
 
 func (w *World) finalChecks() {}
-
-type validateSnap struct{}
-
-func (w *World) preValidate(n *Node, s consensus.State, b types.Block, bs consensus.V1BlockSupplement) *validateSnap {
-	return nil
-}
-func (w *World) postValidate(n *Node, snap *validateSnap, s consensus.State, b types.Block, bs consensus.V1BlockSupplement, verr error) {
-}
-func (w *World) postApply(n *Node, snap *validateSnap, s consensus.State, e *blockEntry, bs consensus.V1BlockSupplement, ns consensus.State, au consensus.ApplyUpdate) {
-}
-
-type revertSnap struct{}
-
-func (w *World) preRevert(n *Node, e *blockEntry) *revertSnap { return nil }
-func (w *World) checkRevertDiffs(n *Node, e *blockEntry, ru consensus.RevertUpdate, pre *revertSnap) {
-}
 
 type Light struct{}
 
